@@ -231,6 +231,21 @@ class CFG:
             self._link(preds, n)
             n.succ.append(self.exit)
             return []
+        if k == 'inlineblock':
+            # body of an inlined helper (K-NORM): its `return`s were rewritten to `ireturn` — jumps to the end of this block
+            frame = []
+            if not hasattr(self, '_iframes'):
+                self._iframes = []
+            self._iframes.append(frame)
+            out = self.S(s['body'], preds)
+            self._iframes.pop()
+            return out + frame
+        if k == 'ireturn':
+            n = self._new('ireturn', s)
+            self._link(preds, n)
+            if getattr(self, '_iframes', None):
+                self._iframes[-1].append(n)
+            return []
         if k == 'if':
             preds = self.S(s.get('init'), preds)
             if s.get('cv'):
